@@ -110,6 +110,12 @@ impl Channel {
     pub fn flush(&mut self, timeout: Duration) -> (r: u32)
         ensures final(self).calls@ == old(self).calls@.push(ChanEv::Flush(timeout, r)),
     { unimplemented!() }
+    /// the channel's status queries: racy snapshots with ARBITRARY answers -- a close that decides from one of them instead of going through a graceful end
+    /// fails its postcondition (e.g. `is_channel_open()` turns false as soon as the streams are TOLD to end, long before they have drained)
+    #[verifier::external_body] pub fn is_channel_open(&self) -> bool { unimplemented!() }
+    #[verifier::external_body] pub fn running_streams_count(&self) -> u32 { unimplemented!() }
+    #[verifier::external_body] pub fn pending_items_count(&self) -> u32 { unimplemented!() }
+    #[verifier::external_body] pub fn buffer_size(&self) -> u32 { unimplemented!() }
 }
 pub struct Stats { pub v: u8 }
 impl Stats { #[verifier::external_body] pub fn report_scheduled_to_finish(&self) { } }
